@@ -123,7 +123,9 @@ def sort_set_values(set_values):
     is_sorted = False
     try:
         set_values = sorted(set_values)
-        is_sorted = True
+        # sorted() gives a deterministic result only for a total order
+        # (frozensets for example are only partially ordered)
+        is_sorted = all(a <= b for a, b in zip(set_values, set_values[1:]))
     except TypeError:
         pass
 
